@@ -142,7 +142,7 @@ fn generate(tier: &str, rng: &mut Rng) -> Vec<Case> {
         single_op_family(&mut out, rng, &[2]);
     }
     let w = Weights { push: 10, ready: 8, poll: 10, flush: 3, pop: 6, popm: 3, cancel: 5, ccancel: 1, dropk: 4, token: 3, tcancel: 3, gate: 3, pdrop: 3 };
-    let n = if thorough { 25_000 } else { 1_000 };
+    let n = if thorough { 18_000 } else { 1_000 };
     for i in 0..n {
         let drv = *rng.pick(&DRIVERS);
         let cap = *rng.pick(&CAPS);
